@@ -36,6 +36,67 @@ CHECKS = {
         "<= 1e-10 accepted. Which time span the result covers is not asserted (the property does not state it).",
         "4/C10",
     ),
+    "C07": (
+        "complete enumeration of the per-kernel unit x dtype grid (thorough; seeded sample in quick) against closed "
+        "forms in 50-digit mpmath on the stored operands",
+        "Enumerated generated-input search: for each conversion / gravity / propagation kernel every combination of "
+        "unit per argument and dtype per argument is evaluated at three numeric points and compared with the mpmath "
+        "closed form (equivariance by transitivity through the physical reference), with the documented output unit and "
+        "the float32/float64 contract asserted. Thorough tier covers the grid completely (exhaustive).",
+        "Trusted: mpmath, exact unit factors. int32 operands for which scipp raises DTypeError are counted, not flagged. "
+        "The dtype contract is asserted for the kernels that document one (elastic, inelastic, gravity); "
+        "time_at_sample_from_tof / propagate_times / wavelength_to_inverse_velocity are checked for values and units only.",
+        "4/C07",
+    ),
+    "C08": (
+        "Hypothesis-generated beams, rotations (quaternions), lattices (B with cond <= 1e6) vs mpmath linear algebra; "
+        "metamorphic exact transforms (2^k scaling, signed permutations)",
+        "Generated-input search against a 50-digit reference: Q vector vs (2 pi/lambda)(e_i - e_f), |Q| vs scalar Q and "
+        "2theta, scale invariance (bit-exact for powers of two), rotation equivariance, hkl as the solution of "
+        "2 pi R UB hkl = Q with a cond-aware rounding bound, UB = U B, lossless split/reassemble, and graph wiring.",
+        "Trusted: mpmath. hkl bound eps*(128 cond + cond^2): the code inverts R*UB explicitly, measured worst 8 eps*cond / "
+        "0.1 eps*cond^2.",
+        "4/C08",
+    ),
+    "C11": (
+        "Hypothesis-generated programs (pulse, chopper cascades, chop/propagate/lookup sequences) vs an independent "
+        "neutron-transmission model; metamorphic order/grouping/two-step relations; invariants on every frame",
+        "Model-based generated-input search: sampled neutrons are propagated through an independent transmission model "
+        "and compared with point-in-polygon membership of the reported subframes; every subframe of every frame must "
+        "stay in the source band, be regular, and have subbounds()/bounds() equal to its vertex extremes; results must "
+        "not depend on chopper list order, grouping of chop calls, or one- vs two-step propagation.",
+        "Trusted: arrival time = t0 + d*lambda*m_n/h; samples within 1e-9 of a window edge / 1e-7 of a polygon edge are "
+        "skipped (counted). Window times in s and propagate/lookup distances in m (implicit preconditions of the code).",
+        "4/C11",
+    ),
+    "C15": (
+        "Hypothesis-generated float64 bit patterns, headers and coordinate layouts; bit-exact round trip; independent "
+        "text re-parse; complete enumeration of refused inputs",
+        "Generated-input search with a round-trip oracle at bit level (coordinate and values identical, variances within "
+        "4 ulp), an independent parse of the written text, adversarial headers, files up to 1e4 rows, and an enumerated "
+        "refusal facet (documented exception, target untouched).",
+        "Trusted: Python float()/repr round trip. 4 ulp is the reading of 'a few units in the last place' (analytic bound 1).",
+        "4/C15",
+    ),
+    "C19": (
+        "Hypothesis-generated series (lattice values making slope == tolerance decidable, noise around the tolerance, "
+        "float/int/datetime coordinates) vs an exact-rational re-implementation of the definition",
+        "Generated-input search against a reference model written from the statement in exact Fraction arithmetic: "
+        "plateau bins equal the maximal runs with >= min_n_points points (content bit-for-bit), collapse gives mean and "
+        "half-open interval containing all points, in-phase filter keeps exactly the near multiples/divisors.",
+        "Trusted: Fraction arithmetic. Cases within rounding of the tolerance are skipped unless numpy certifies the "
+        "quotient exact; distance == rtol exactly is left undecided (statement says 'within').",
+        "4/C19",
+    ),
+    "C20": (
+        "complete enumeration of all 4046 table rows against an independent CSV re-parse; Hypothesis-generated near-miss "
+        "names, lookup sequences and attenuation inputs vs mpmath",
+        "All rows of the three bundled tables are enumerated in both tiers (exhaustive) and compared field by field with "
+        "an independent csv-module parse; generated one-edit near-miss names must be rejected unless they are genuine "
+        "rows; lookup sequences check cache isolation; attenuation vs n*(sigma_s + sigma_a*lambda/1.7982 A) in mpmath.",
+        "Trusted: Python csv module, Fraction, mpmath. Variance compared to the exact square within 2e-15 (glibc pow).",
+        "4/C20",
+    ),
 }
 
 NOT_YET = "check not built yet (work in progress; every property is planned to be claimed, see DESIGN.md section 4)"
